@@ -39,7 +39,7 @@ func c12Cfg() *DeclCfg {
 			"string", "string", "string", "duration", "[]int", "[]string", "[]string", "[]float64", "[]uint8", "map[string]int", "map[string]string", "map[string]string",
 			"map[int]string", "map[string]bool", "map[string]float64", "*int", "*string", "*bool", "*uint16", "um", "func(string)", "[]bool", "filename", "ulist"},
 		MinOpts: 1, MaxOpts: 5, MaxGroups: 2, MaxSub: 2, MaxCmds: 3, MaxDepth: 3, Exec: true,
-		Defaults: true, Hidden: true, NoIni: true, IniName: true, Namespaces: true, Base: true, Init: false, Descriptions: true, Choices: false, DottedCmds: true, MultiLine: true,
+		Defaults: true, Hidden: true, NoIni: true, IniName: true, Namespaces: true, Base: true, Init: false, Descriptions: true, Choices: false, DottedCmds: true, MultiLine: true, BaseMulti: true, Optional: true, DupFields: true, CapCmds: true,
 		ParserOpts: []uint{0, optHelpFlag, optHelpFlag | optPassDoubleDash, optIgnoreUnknown},
 	}
 }
